@@ -1932,6 +1932,7 @@ def hand_programs(M, lang):
     f = M.builtins[lang]
     STR, I, ANY, VOID = f.get_string_type, f.get_integer_type, f.get_any_type, f.get_void_type
     L = f.get_long_type
+    NUM = f.get_number_type
     FUNC, METHOD = ast.FunctionDeclaration.FUNCTION, ast.FunctionDeclaration.CLASS_METHOD
 
     def prog(*decls):
@@ -2105,6 +2106,8 @@ def hand_programs(M, lang):
         # element type String (TypeOverwriting never replaces String) and Long (it may)
         out[name] = (lambda fn=fn: fn(STR, lambda: ast.StringConstant('s'), I))
         out[name + '_long'] = (lambda fn=fn: fn(L, lambda: ast.IntegerConstant(7, L()), STR))
+        # element type Number: a builtin that has builtin subtypes (Int, Long, ..., which are NOT unrelated to it)
+        out[name + '_number'] = (lambda fn=fn: fn(NUM, lambda: ast.IntegerConstant(7, NUM()), STR))
     return out
 
 
@@ -2113,7 +2116,8 @@ def hand_programs(M, lang):
 HAND = ['decl_vs_new', 'ctor_arg', 'recursion', 'subtype_init', 'generic_call', 'generic_super', 'field_init',
         'two_params', 'ret_block', 'call_arg', 'dup_targs', 'conditional_init', 'shadowing',
         'bounded_tvar', 'eq_operand', 'super_arg_call', 'inherited_generic_field']
-HAND = HAND + [h + '_long' for h in HAND]
+HAND = HAND + [h + '_long' for h in HAND] + [h + '_number' for h in ('ctor_arg', 'recursion', 'generic_call', 'decl_vs_new',
+                                                                     'two_params', 'ret_block', 'call_arg')]
 
 
 # ----------------------------------------------------------------------------------------------------------------
